@@ -702,6 +702,17 @@ impl IdmServerProxyWriteTransaction<'_> {
             missing_scim.remove(&entry.get_uuid());
         });
 
+        // A sync agreement must never bring entries into the protected system uuid range. The
+        // stubs below are created with an internal identity, which the base plugin trusts to
+        // create built-in entries (and tags them as such), so the range has to be checked here.
+        if let Some(u) = missing_scim
+            .keys()
+            .find(|u| **u < DYNAMIC_RANGE_MINIMUM_UUID)
+        {
+            error!("Unable to proceed: entry uuid {} is in the protected system uuid range. You must re-map this entries uuid in the sync connector to proceed.", u);
+            return Err(OperationError::InvalidEntryState);
+        }
+
         // For entries that do not exist, create stub entries. We don't create the external ID here
         // yet, because we need to ensure that it's unique.
         let create_stubs: Vec<EntryInitNew> = missing_scim
@@ -1330,10 +1341,26 @@ impl IdmServerProxyWriteTransaction<'_> {
             })
             .collect();
 
+        // Phantom attributes are never stored, they are turned into another attribute by the
+        // credential import plugin. When authority over that attribute (or over the phantom
+        // attribute itself) was yielded to Kanidm the import must not be sync owned either.
         let phantom_attr_set: BTreeSet<Attribute> = attr_snapshot
             .values()
             .filter_map(|attr| {
-                if attr.phantom && attr.sync_allowed {
+                let import_target_yielded = match &attr.name {
+                    Attribute::PasswordImport | Attribute::TotpImport => {
+                        sync_authority_set.contains(&Attribute::PrimaryCredential)
+                    }
+                    Attribute::UnixPasswordImport => {
+                        sync_authority_set.contains(&Attribute::UnixPassword)
+                    }
+                    _ => false,
+                };
+                if attr.phantom
+                    && attr.sync_allowed
+                    && !sync_authority_set.contains(&attr.name)
+                    && !import_target_yielded
+                {
                     Some(attr.name.clone())
                 } else {
                     None
